@@ -88,6 +88,8 @@ class Org(_Ident, Symbol):
     members: Set[Human] = field(default_factory=set)
     sub_org_of: List[Org] = field(default_factory=list)
     partners: Set[Org] = field(default_factory=set)
+    funds: List[Org] = field(default_factory=list)
+    related: Set[Org] = field(default_factory=set)
 
 
 @dataclass(eq=False, repr=False)
@@ -152,6 +154,21 @@ class PartnerOf(PropertyDescriptor, TransitiveProperty):
     ...
 
 
+@dataclass
+class RelatedTo(PropertyDescriptor):
+    """Top of a chain without inverses: Funds < Supports < RelatedTo; Org has no field for Supports."""
+
+
+@dataclass
+class Supports(RelatedTo):
+    pass
+
+
+@dataclass
+class Funds(Supports):
+    pass
+
+
 Human.works_for = WorksFor(Human, "works_for")
 Human.member_of = MemberOf(Human, "member_of")
 Boss.head_of = HeadOf(Boss, "head_of")
@@ -160,6 +177,8 @@ Envoy.affiliated = MemberOf(Envoy, "affiliated")
 Org.members = Member(Org, "members")
 Org.sub_org_of = SubOrgOf(Org, "sub_org_of")
 Org.partners = PartnerOf(Org, "partners")
+Org.funds = Funds(Org, "funds")
+Org.related = RelatedTo(Org, "related")
 
 ONTOLOGY_CLASSES = {"Org": Org, "Human": Human, "Boss": Boss, "Envoy": Envoy}
 
@@ -167,7 +186,7 @@ ONTOLOGY_CLASSES = {"Org": Org, "Human": Human, "Boss": Boss, "Envoy": Envoy}
 # property name -> {domain class, field, kind, range class, supers (property names), inverse, transitive}
 ONTOLOGY = {
     "classes": {
-        "Org": {"fields": ["members", "sub_org_of", "partners"], "role_taker": None},
+        "Org": {"fields": ["members", "sub_org_of", "partners", "funds", "related"], "role_taker": None},
         "Human": {"fields": ["works_for", "member_of"], "role_taker": None},
         "Boss": {"fields": ["head_of"], "role_taker": "human"},
         "Envoy": {"fields": ["chairs", "affiliated"], "role_taker": None},
@@ -181,6 +200,8 @@ ONTOLOGY = {
         "HeadOf": {"cls": "Boss", "field": "head_of", "kind": "single", "range": "Org", "descriptor": "HeadOf", "supers": ["WorksFor", "MemberOf"], "inverse": "Member", "transitive": False},
         "Chairs": {"cls": "Envoy", "field": "chairs", "kind": "single", "range": "Org", "descriptor": "Chairs", "supers": ["HeadOf", "WorksFor", "MemberOf"], "inverse": "Member", "transitive": False},
         "MemberOfE": {"cls": "Envoy", "field": "affiliated", "kind": "list", "range": "Org", "descriptor": "MemberOf", "supers": [], "inverse": "Member", "transitive": False},
+        "Funds": {"cls": "Org", "field": "funds", "kind": "list", "range": "Org", "descriptor": "Funds", "supers": ["Supports", "RelatedTo"], "inverse": None, "transitive": False},
+        "RelatedTo": {"cls": "Org", "field": "related", "kind": "set", "range": "Org", "descriptor": "RelatedTo", "supers": [], "inverse": None, "transitive": False},
         "SubOrgOf": {"cls": "Org", "field": "sub_org_of", "kind": "list", "range": "Org", "descriptor": "SubOrgOf", "supers": [], "inverse": None, "transitive": True},
         "PartnerOf": {"cls": "Org", "field": "partners", "kind": "set", "range": "Org", "descriptor": "PartnerOf", "supers": [], "inverse": None, "transitive": True},
     },
